@@ -272,9 +272,9 @@ class Trellis34:
         :param decoded:
         :return:
         """
-        if isinstance(decoded, bytes):
+        if isinstance(decoded, (bytes, bytearray, memoryview)):
             bits: bitarray = bitarray(endian="big")
-            bits.frombytes(decoded)
+            bits.frombytes(bytes(decoded))
             decoded = bits
 
         assert (
